@@ -216,13 +216,14 @@ class DriverRules:
                 ok = not overl and '?' not in bm and sorted(k for k in bm if k != '?') == list(range(hdr))
                 rec.ob('R02.a', 'R02.a@%s::header-contiguous' % fkey(f), ok, where,
                        'T=%d: header writes cover exactly [0,%d) without gap or overlap: %s' % (T, hdr, 'yes' if ok else 'NO (%d bytes, overlaps %s)' % (len(bm), overl[:4])))
-                if not ok:
-                    # the layout rules need a gap-free header; the ordering rules of the tag (R13.*, R08.b) do not
-                    self.tag_rules(s, ev, T, f, where, lens)
-                    continue
+                # the rules below are all evaluated even when the header is not gap-free: a byte nobody wrote is 'missing'
+                class _BM(dict):
+                    def __missing__(self, k):
+                        return ('missing', None, ())
+                bm = _BM(bm)
                 okm = magic is not None and all(bm[i] == ('byte', (magic >> (8 * i)) & 0xff) for i in range(8))
                 rec.ob('R02.a', 'R02.a@%s::magic-at-0' % fkey(f), okm, where, 'T=%d: bytes [0,8) are the magic constant %s' % (T, hex(magic) if magic else '?'))
-                okc = bm[8][0] == 'loc' and str(bm[8][2][-1]).endswith('::ctype') and bm[9][0] == 'loc' and str(bm[9][2][-1]).endswith('::htype')
+                okc = bm[8][0] == 'loc' and bm[8][2] and str(bm[8][2][-1]).endswith('::ctype') and bm[9][0] == 'loc' and bm[9][2] and str(bm[9][2][-1]).endswith('::htype')
                 rec.ob('R02.a', 'R02.a@%s::mode-bytes-at-8-9' % fkey(f), okc, where, 'T=%d: byte 8 <- %s, byte 9 <- %s' % (T, bm[8][1:], bm[9][1:]))
                 okz = all(bm[i] == ('byte', 0) for i in range(10, 48))
                 rec.ob('R02.b', 'R02.b@%s::tag-area-zero' % fkey(f), okz, where, 'T=%d: bytes [10,48) written as zeros before the body' % T)
@@ -275,6 +276,7 @@ class DriverRules:
         rec = self.rec
         ip = next((i for i, e in enumerate(ev) if e[0] == 'PIPE'), None)
         if ip is None:
+            rec.ob('R13.a', 'R13.a@%s::single-write-after-body' % fkey(f), False, where, 'T=%d: encryption reports success on a path that never ran the pipeline (no body)' % T)
             return
         after = ev[ip + 1:]
         wout = [e for e in after if e[0] == 'W' and e[1] == 'out']
@@ -282,9 +284,10 @@ class DriverRules:
         self.n_tag = getattr(self, 'n_tag', 0) + 1
         rec.ob('R13.a', 'R13.a@%s::single-write-after-body' % fkey(f), ok1, where,
                'T=%d: %d write(s) to the output after the body (must be exactly the tag)' % (T, len(wout)))
-        if not ok1:
+        if not wout:
+            rec.ob('R08.b', 'R08.b@%s::tag-at-10' % fkey(f), False, where, 'T=%d: no write after the body: the tag is never stored' % T)
             return
-        w = wout[0]
+        w = wout[-1]        # with several writes after the body the last one is judged as the tag (R13.a has already failed)
         L = w[3][1] if w[3][0] == 'c' else None
         okpos = w[2] == C(10) and L in set(lens.values()) and L <= 38
         rec.ob('R08.b', 'R08.b@%s::tag-at-10' % fkey(f), okpos, w[5], 'T=%d: tag written at offset %s, %s bytes (digest lengths %s, field 38)' % (
